@@ -253,6 +253,52 @@ def v_emnist(p):
   p.verify('emnist.domain_id', eng, body)
 
 
+def v_tasks(p):
+  """training/tasks.get_task wires a packaged dataset to its packaged model.  ids.* prove that each model's DEFAULT label
+  conventions are those of its dataset, so every branch of get_task must (a) pair datasets.<X> with models.<X>, (b) call the
+  model constructor with no argument that touches the label conventions (vocabulary size, special ids, class count; the
+  EMNIST `only_digits` switch must be the one given to the dataset), and (c) preprocess train and test identically."""
+  TK = 'fedjax/training/tasks.py'
+  ex = p.extract(TK, 'get_task')
+  allowed = {'emnist': {'only_digits'}, 'shakespeare': set(), 'stackoverflow': {'expected_length'}, 'cifar100': set()}
+  branches = []
+  node = [n for n in ex.node.body if isinstance(n, ast.If)]
+  cur = node[0] if node else None
+  while isinstance(cur, ast.If):
+    t = cur.test
+    nm = ast.literal_eval(t.comparators[0]) if isinstance(t, ast.Compare) and isinstance(t.comparators[0], ast.Constant) else None
+    branches.append((nm, cur.body))
+    cur = cur.orelse[0] if len(cur.orelse) == 1 and isinstance(cur.orelse[0], ast.If) else None
+  for nm, body in branches:
+    calls = [c for st in body for c in ast.walk(st) if isinstance(c, ast.Call)]
+    data = [c for c in calls if ast.unparse(c.func).startswith('datasets.') and ast.unparse(c.func).endswith('.load_data')]
+    mods = [c for c in calls if ast.unparse(c.func).startswith('models.')]
+    bad = []
+    if len(data) != 1 or len(mods) != 1:
+      bad.append(f'{len(data)} load_data calls, {len(mods)} model constructors')
+    else:
+      dname, mname = ast.unparse(data[0].func).split('.')[1], ast.unparse(mods[0].func).split('.')[1]
+      if dname != mname:
+        bad.append(f'datasets.{dname} paired with models.{mname}')
+      kws = {k.arg: ast.unparse(k.value) for k in mods[0].keywords}
+      if mods[0].args or not set(kws) <= allowed.get(mname, set()):
+        bad.append(f'model constructor arguments {ast.unparse(mods[0])} (allowed keywords: {sorted(allowed.get(mname, set()))})')
+      dk = {k.arg: ast.unparse(k.value) for k in data[0].keywords}
+      if 'only_digits' in kws and kws['only_digits'] != dk.get('only_digits'):
+        bad.append(f"only_digits: model {kws['only_digits']} vs dataset {dk.get('only_digits')}")
+    pre = {}
+    for st in body:
+      if isinstance(st, ast.Assign) and isinstance(st.value, ast.Call) and ast.unparse(st.value.func).endswith('.preprocess_batch'):
+        pre.setdefault(ast.unparse(st.targets[0]), []).append(ast.unparse(st.value.args[0]) if st.value.args else None)
+    if pre and (set(pre) != {'train', 'test'} or pre['train'] != pre['test']):
+      bad.append(f'train / test preprocessed differently: {pre}')
+    p.oblige(f'task.wiring:{nm}', [], z3.BoolVal(not bad), kind='precondition', fn='get_task',
+             detail=f'{nm}: dataset and model of the same package, label conventions left at the defaults proved by ids.*, '
+                    f'train and test preprocessed alike ({bad})')
+  p.oblige('task.wiring.tasks', [], z3.BoolVal(len(branches) >= 6 and all(n for n, _ in branches)), kind='post', fn='get_task',
+           detail=f'{len(branches)} task branches analysed (vacuity guard)')
+
+
 def v_cifar_wrapper(p):
   """preprocess_batch_tff is preprocess_image_tff on 'x' with (crop_height, crop_width, distort) in that order, 'y' unchanged."""
   ex = p.extract(CI, 'preprocess_batch_tff')
@@ -314,6 +360,7 @@ def build(p):
   v_ids(p)
   v_cifar(p)
   v_cifar_wrapper(p)
+  v_tasks(p)
   v_emnist(p)
   from . import C20_join
   C20_join.build(p)
